@@ -18,6 +18,7 @@ fn stub_get_mount_point(_d: &DiskDevices, path: &Path) -> &'static Path {
 ghost_fs_unit!(wrappers, c07_are_on_same_mount_is_pure,
     [(crate::device::DiskDevices::get_mount_point, stub_get_mount_point)], {
     init(INV_NONE, true, false);
+    unsafe { crate::dedupe::verif_dedupe::PLANNING = true };
     unsafe { SAME = kani::any() };
     let devices: std::mem::ManuallyDrop<DiskDevices> =
         std::mem::ManuallyDrop::new(unsafe { std::mem::MaybeUninit::<DiskDevices>::zeroed().assume_init() });
